@@ -8,7 +8,12 @@ of range or off a boundary for such spans). The resolver model is a structural t
 diagnostics carry AST spans. Tie: `lex`, `parse`, `resolve`, `render` correspondence streams on arbitrary
 UTF-8, truncations, token mutations; the composed front end on mutated programs (`pipe` front requests).
 Implementation-level oracles (no model): no panic / abort / hang, every span ordered, in range and on a
-character boundary, render_ansi returns."""
+character boundary, render_ansi returns; large ordinary sources (scalelib: 31 families x 20 000 repetitions through
+the real `naija` binary) end with exit 0/1, never a memory error. Hang oracle: every stage answers its requests inside a worker
+subprocess (lexer, resolver, composed front end; the parser stream bisects); a request on which the
+implementation does not return within the worker's CPU limit, or kills the process (abort on `memory
+allocation failed`, stack overflow), is answered `hang` / `abort` for that line and the stream goes on —
+such an answer, like `panic`, names the concrete failing input of C07 whatever stage produced it."""
 import importlib
 import os
 
@@ -16,7 +21,8 @@ import lexlib
 import parselib
 import pipelib
 import resolvelib
-from common import Check, LEAN
+import scalelib
+from common import Check, LEAN, MachineryError
 
 MODULES = ["NaijaVerif.Props.C07Lex", "NaijaVerif.Props.C07Parse", "NaijaVerif.Props.C07Resolve", "NaijaVerif.Props.C07"]
 RENDER = "NaijaVerif.Props.C07Render"
@@ -31,7 +37,9 @@ def run(ck: Check):
     ck.rule = ("arbitrary valid UTF-8 from a grammar of lexer classes, every prefix of every shipped program, deep "
                "repetitive inputs (lexer); hand-written recovery seeds, all single-token mutations of short programs, "
                "generated programs half of them mutated (parser); well-formed programs and single-rule violations in "
-               "every context (resolver: no panic); token-mutated generated programs through the composed front end; "
+               "every context, call cycles whose return value combines the recursive call's result with literals of "
+               "other types (resolver: no panic, no hang, no abort); token-mutated generated programs and recursive "
+               "function families through the composed front end; "
                "non-trivial = at least one real token, diagnostic or AST of 10+ nodes; distinct by request text")
     ck.build_harness()
     ck.gen_tables()
@@ -48,22 +56,47 @@ def run(ck: Check):
     # obligation of one stage cannot hide a concrete failing input that another stage's stream produces.
     lexlib.lex_streams(ck, ck.tier, only=["grammar", "trunc-all-prefixes", "trunc-windows", "deep"])
     parselib.parse_streams(ck, ck.tier)   # incl. totality guard: a hang or a death is bisected to one input
-    out = resolvelib.resolve_streams(ck, ck.tier, sizes={"valid": 600, "viol": 900, "mixed": 900} if quick else None)
-    crashed = [r for r, a in zip(out["requests"], out["resolve"]["impl_lines"]) if not a.rstrip().endswith("end=ok")]
+    out = resolvelib.resolve_streams(ck, ck.tier,
+                                     sizes={"valid": 600, "viol": 900, "mixed": 900, "rec": 500} if quick else None)
+    crashed = resolvelib.crashed(out)      # [(request, answer)]: panic / hang / abort of the static checker
+    crashed += [(r, a) for r, a in zip(out["requests"], out["resolve"]["impl_lines"])
+                if not a.rstrip().endswith("end=ok") and a != "unrun" and (r, a) not in crashed]
     ck.count("resolver_cases", len(out["requests"]))
     ck.count("resolver_crashes", len(crashed))
     # C09-specific verdicts (spec / WF) are not C07's subject: keep only crashes and model-vs-impl disagreements
     ck.oracle_fails[:] = [f for f in ck.oracle_fails if f.get("family") != "resolve"]
+    pipelib.pipe_stream(ck, "mutants", 1500 if quick else 40000, extra=pipelib.corpus_requests("C07"))
     if render:
-        renderlib.render_streams(ck, ck.tier)
-        renderlib.render_mem_oracle(ck)
-    pipelib.pipe_stream(ck, "mutants", 1500 if quick else 40000)
+        # the render generator runs the real front end in-process to collect real diagnostics: a front end
+        # that aborts takes it down. With a concrete crash already in hand that is a consequence, not a
+        # machinery problem; without one it is recorded as a broken stream.
+        try:
+            renderlib.render_streams(ck, ck.tier)
+            renderlib.render_mem_oracle(ck)
+        except MachineryError as e:
+            if not (crashed or pipelib.crashes(ck)) and "generator render failed" not in str(e):
+                raise
+            ck.broken.append({"kind": "render-stream-died", "family": "render",
+                              "what": "the render generator / stream died while running the real front end in-process",
+                              "error": str(e)[-300:]})
+    ck.count("front_end_no_return_cases", len(pipelib.crashes(ck)))
+    # large ordinary sources through the real binary: the front end's memory use must stay proportionate
+    scale_fails = scalelib.scale_stream(ck, 20000 if quick else 30000)
     if ck.tier == "thorough":
         ck.leanchecker(mods)
     if crashed:
-        r = min(crashed, key=len)
+        r, a = min(crashed, key=lambda x: len(x[0]))
+        how = a.rstrip().rsplit("end=", 1)[-1] if "end=" in a else a.split(" ", 1)[0]
+        src, req = resolvelib.shrink(ck, r, "crash", budget=100, budget_s=150)
         ck.report_violation({"kind": "impl-vs-oracle", "family": "resolve", "what": "the static checker did not return "
-                             "(panic / abort) on this program", "requests": [r], "program": resolvelib.src_of(r)})
+                             f"on this program ({how}): neither diagnostics nor facts", "requests": [req], "program": src,
+                             "impl": a[:200], "failing_cases": len(crashed),
+                             "replay_cmd": f"./check {ck.pid} --replay <this file>"})
+    if pipelib.crashes(ck):
+        ck.report_violation(pipelib.crash_report(ck, pipelib.crashes(ck)))
+    if scale_fails:
+        ck.report_violation(scalelib.report(ck, scale_fails))
+    if crashed or pipelib.crashes(ck) or scale_fails:
         return ck.finish()
     if ck.is_broken():
         dispatch(ck, out, renderlib)
@@ -104,6 +137,8 @@ def dispatch(ck, out, renderlib):
 
 def replay(ck, data):
     fam = data.get("family")
+    if fam == "scale":
+        return scalelib.replay(ck, data)
     if fam == "pipe":
         return pipelib.replay(ck, data)
     if fam == "resolve":
